@@ -1637,7 +1637,7 @@ func hScan(n *Nodis, conn *redis.Conn, cmd redis.Command) {
 	key := cmd.Args[0]
 	cursor, _ := strconv.ParseInt(cmd.Args[1], 10, 64)
 	var match = "*"
-	var count int64
+	var count int64 = 10
 	if cmd.Options.MATCH > 1 {
 		match = cmd.Args[cmd.Options.MATCH]
 	}
@@ -1647,11 +1647,19 @@ func hScan(n *Nodis, conn *redis.Conn, cmd redis.Command) {
 			conn.WriteError("ERR value is not an integer or out of range")
 			return
 		}
+		if count < 1 {
+			conn.WriteError("ERR syntax error")
+			return
+		}
 	}
 	execCommand(conn, func() {
-		_, results := n.HScan(key, cursor, match, count)
+		next, results := n.HScan(key, cursor, match, count)
+		if next < cursor+count {
+			// the walk ran off the end of the hash: the iteration is complete
+			next = 0
+		}
 		conn.WriteArray(2)
-		conn.WriteBulk(strconv.FormatInt(cursor, 10))
+		conn.WriteBulk(strconv.FormatInt(next, 10))
 		conn.WriteArray(len(results) * 2)
 		for k, v := range results {
 			conn.WriteBulk(k)
